@@ -636,6 +636,7 @@ verdict_t check_histogram(const hcase_t& c, ctx_t& ctx)
 }
 } // namespace
 
+#ifndef VERIF_NO_MAIN
 int main(int argc, char** argv)
 {
     suite_t suite("C20");
@@ -643,3 +644,4 @@ int main(int argc, char** argv)
     suite.add<hcase_t>("histogram", gen_hcase, check_histogram, 1.0);
     return suite.main(argc, argv);
 }
+#endif
